@@ -103,6 +103,9 @@ FLAG_FORMS = [
     "X->y = FALSE", "X[0] = FALSE", "def class X do def m(self) 1 end", "do error 1 catch all X = FALSE end",
     "def o = <*v = 1*>; o->X = FALSE", "while FALSE do X = FALSE end; eval('X = FALSE')", "eval('def X = FALSE')",
     "parse('X = FALSE')", "bind_native('println', 'X')", "put(<<<>>>, 'X', FALSE)", "def g() do X = FALSE end; g()",
+    # compound assignments: with a NULL operand the arithmetic yields NULL (falsy)
+    "X += NULL", "X -= NULL", "X *= NULL", "X /= NULL", "X %= NULL", "eval('X += NULL')", "def g() do X -= NULL end; g()",
+    "X *= 0", "X -= 1", "X /= 2", "X %= 1", "X += ''", "X += []", "for i in [1] do X *= NULL end",
 ]
 IDENTS = ["a", "checkerlang_secure_mode", "checkerlang_x"]
 OS_NATIVES = ["file_input", "file_output", "file_delete", "make_dir", "execute", "list_dir", "file_exists",
